@@ -60,7 +60,7 @@ def run(tier, seed, replay=None):
     for it in range(reps):
         pd = rng.choice([1, 2, 2, 3, 3])
         order = rng.choice([2, 2, 3])
-        rat = rng.random() < 0.25
+        rat = rng.choice([False, False, True, 'mixed', 'mixed'])     # 'mixed': rational and polynomial patches in one model
         ring = pd >= 2 and rng.random() < 0.2
         if ring:
             # complexes closing around an axis: a patch adjacent to itself, two patches sharing two interfaces, closed chains
@@ -305,6 +305,35 @@ def run(tier, seed, replay=None):
                 pass
         except Exception as e:  # noqa
             fail('handedness', dict(pardim=pd), 'raised %s' % type(e).__name__)
+    # handedness of every re-orientation (Proofs/HandedProofs.v: a patch that is right-handed with margin stays so under the
+    # even re-orientations and fails the test under the odd ones) and the test itself against Model/Handed.v (L1)
+    from splipy.utils import is_right_hand
+    rh_cases = []
+    for it in range(reps):
+        pd = rng.choice([2, 3])
+        try:
+            base = X.build(rng, pd, dim=pd, order=rng.choice([2, 2, 3]), refine=rng.choice([0, 1]), cells=[tuple([0] * pd)], kind='single', right_handed=True)['patches'][0]
+            perm, flip = rng.choice(X.orientations(pd))
+            parity = (sum(flip) + sum(1 for i in range(pd) for j in range(i) if perm[j] > perm[i])) % 2
+            cand = X.reorient(base.clone(), perm, flip)
+            args_ = dict(pardim=pd, perm=list(perm), flip=[bool(f_) for f_ in flip], patch=O.spec_json(O.snapshot(cand)))
+            if not is_right_hand(base):
+                continue            # (a strongly distorted cell: nothing to say)
+            count('handedness of %s re-orientations' % ('odd' if parity else 'even'))
+            nontriv.add(C.case_hash(args_))
+            accepted = True
+            try:
+                SplineModel(pd, pd, force_right_hand=True).add(cand)
+            except ValueError:
+                accepted = False
+            if accepted != (parity == 0):
+                fail('handedness', args_, 'an %s re-orientation of a right-handed patch was %s by a model that forces right-handedness'
+                     % ('odd' if parity else 'even', 'accepted' if accepted else 'rejected'))
+            htol = rng.choice([1e-3, 1e-3, 0.25, 0.5, 0.9])
+            got = bool(is_right_hand(cand, tol=htol))
+            rh_cases.append((args_, htol, got, 'right_hand %s %s %s' % (C.qs(state.knot_tolerance), C.qs(htol), O.obj_tokens(O.snapshot(cand)))))
+        except Exception as e:  # noqa
+            fail('handedness', dict(pardim=pd), 'raised %s' % type(e).__name__)
     # self-connected patches: a ring made of one surface (umin edge == umax edge), and doubly self-connected (torus-like net)
     try:
         n = 6
@@ -339,6 +368,20 @@ def run(tier, seed, replay=None):
 
     # ---------------------------------------------------------------- L1: Orientation.compute vs the extracted model
     corr_bad = C.Corr()
+    # ---- L1: is_right_hand vs Model/Handed.v (square-root-free form of the same test)
+    if rh_cases:
+        for (a_, htol_, got_, _), tk in zip(rh_cases, C.run_model([c_[3] for c_ in rh_cases])):
+            count('L1 right_hand')
+            if tk.word() != 'Ok':
+                corr_bad += {'what': 'L1: is_right_hand: the model raises', 'op': 'handedness', 'args': a_}
+                continue
+            want_ = bool(tk.int())
+            if want_ != got_:
+                # the exact and the floating-point value may fall on different sides only when the value is within rounding of the threshold
+                from splipy.utils import is_right_hand as irh_
+                o_ = O.make_impl(O.spec_from_json(a_['patch']))
+                if bool(irh_(o_, tol=htol_ * (1 + 1e-9) + 1e-12)) == bool(irh_(o_, tol=htol_ * (1 - 1e-9) - 1e-12)):
+                    corr_bad += {'what': 'L1: is_right_hand(tol=%r) is %s, model %s' % (htol_, got_, want_), 'op': 'handedness', 'args': a_}
     # ---- L1: the node graph vs the abstract catalogue model
     clines = ['catalogue %d %d %s' % (pd_, len(pl_), ' '.join('%d %s' % (len(c_), ' '.join(map(str, c_))) for c_ in pl_)) for (_, pd_, pl_, _, _, _, _) in cat_cases]
     couts = C.run_model(clines) if clines else []
